@@ -91,10 +91,11 @@ REG = {
     "C11": {
         "modules": ["VProofs.Props.C11"],
         "theorems": thms("C11", ["C11_sim", "C11_membership_pandas", "C11_repeat_pandas", "C11_detect_pandas",
-                                 "C11_detect_repeat_pandas"]),
+                                 "C11_detect_repeat_pandas", "C11_infer_pandas"])
+                    + ["V.Pd.guard_accBag", "V.Pd.xform_equiBag", "V.Pd.infer_bag"],
         "runners": ["bag", "pandas", "numpy", "list"],
-        "relevant": ["contains", "detect"],
-        "partial": "bag-invariance of infer_type (14 inference guards/transformers, pd.to_datetime) is explored by the bag runner, not yet proved",
+        "relevant": ["contains", "detect", "guard", "infer-path"],
+        "partial": "k-fold repetition is proved for membership and detect_type only (infer_type under repetition, and the numpy / list back ends, are explored by the bag and sequence runners); DtBag (pd.to_datetime parses element by element) is a hypothesis",
     },
     "C12": {
         "modules": ["VProofs.Props.C12"],
